@@ -547,6 +547,8 @@ def mk_request(rng, method=None, auth_line=None, extra_lines=(), later=False):
         lines.append(rng.choice([b'Proxy-Connection: keep-alive', b'proxy-connection: close']))
     if rng.random() < 0.25:
         lines.append(rng.choice([b'X-Secret: 1', b'x-secret: zzz', b'X-Other: o']))
+    if rng.random() < 0.2:
+        lines.append(rng.choice([b'Via: 1.0 fred', b'via: 1.1 a, 1.1 b', b'VIA:']))
     lines.extend(extra_lines)
     if auth_line is not None:
         lines.insert(rng.randrange(0, len(lines) + 1), auth_line)
